@@ -199,6 +199,22 @@ pub fn gen_inputs(rng: &mut StdRng, n: usize, with_trailing: bool) -> Vec<Input>
         let pl = d.len();
         d.extend_from_slice(&trailing);
         v.push(Input { fmt: Fmt::Lzma2, data: d, name: format!("lzma2/{}syms+{}", ns, trailing.len()), payload_len: Some(pl) });
+        // an uncompressed chunk (length not a multiple of 4) BETWEEN two LZMA chunks, the second one
+        // continuing state and probabilities (class 0): positions after the raw chunk feed the contexts
+        {
+            let lp2 = Props { lc: 0, lp: 2, pb: 2 };
+            let pa = random_walk(rng, &WalkCfg { nsyms: 80, props: lp2, max_dist: 4096, lit_alphabet: 6 });
+            let chunks2 = vec![
+                Chunk::Lzma { class: 3, props: Some(lp2), prog: pa },
+                Chunk::Raw { reset: false, data: (0..(5 + i % 3)).map(|x| x as u8 + 1).collect() },
+                Chunk::Lzma { class: 0, props: None, prog: (0..60).map(|k| if k % 5 == 4 { Sym::Rep { r: 0, n: 3 } } else { Sym::Lit { b: (k % 4) as u8 * 60 } }).collect() },
+            ];
+            let (s2, _, _) = lzma2_stream(&chunks2);
+            let mut d = s2;
+            let pl = d.len();
+            d.extend_from_slice(&trailing);
+            v.push(Input { fmt: Fmt::Lzma2, data: d, name: format!("lzma2-raw-between/{}+{}", i, trailing.len()), payload_len: Some(pl) });
+        }
         // XZ
         let mut f = XzFile { check: [1u8, 4, 0][i % 3], ..Default::default() };
         f.blocks.push(XzBlock { payload: s, content: o, hsize: [0usize, 16, 24][i % 3], has_packed: i % 2 == 0, has_unpacked: i % 3 == 0, ..Default::default() });
